@@ -1,7 +1,7 @@
 (* Props/C08.v -- property C08: printed scripts parse back to the same script at every line width.
    Only statements; every proof is [exact lemma]. *)
-From TV Require Import Base.I32 Model.Fmt Model.FmtLex Model.FmtParse Spec.Fmt
-  Proofs.FmtLits Proofs.FmtLexP Proofs.FmtLitRT Proofs.FmtWidth.
+From TV Require Import Base.I32 Gen.FmtTables Model.Fmt Model.FmtLex Model.FmtParse Spec.Fmt
+  Proofs.FmtLits Proofs.FmtLexP Proofs.FmtLitRT Proofs.FmtWidth Proofs.FmtExprLex Proofs.FmtTables.
 Open Scope Z_scope.
 
 (* (1) integer literals: every i32 in every IntFormat (signed/unsigned decimal, hex, binary, bool,
@@ -26,16 +26,32 @@ Proof. intros s rest. apply (lex1_str _ rest (safe_str_print s)). Qed.
 Theorem C08_no_token_gluing : forall its, ok_seq its = true -> lex (concat_text its) = Ok (otoks its).
 Proof. exact lex_ok_seq. Qed.
 
-(* defect #12: unary minus applied to a negative literal is written `--3`, which is one token *)
+(* (3b) ... and every printable expression, of arbitrary nesting, passes that check in the inline
+       layout: the printed text lexes to exactly the tokens the printer wrote.  [fd] is Rust's Display
+       for finite non-negative f32 (hypothesis on its shape: digits, optionally `.digits`). *)
+Theorem C08_expr_no_token_gluing : forall (fd : Z -> string),
+  (forall a, 0 <= a < INF_BITS -> float_shape (float_text fd a) = true) ->
+  forall e sup, pr_expr fd e = true -> lex (print_expr fd sup e) = Ok (expr_toks fd sup e).
+Proof. exact expr_lex. Qed.
+
+(* defect #12 (as long as src/fmt.rs has no guard: gen_unop_guard = false): unary minus applied to a
+   negative literal is written `--3`, which is one token; the pair (`-`, `-`) fails the check *)
 Theorem C08_no_token_gluing_refuted :
+  if gen_unop_guard then True else
+  let fd := fun _ : Z => "0"%string in
   let e := FUn "-" (FLitI (-3) dec_fmt) in
-  pr_expr (fun _ => "0"%string) (FLitI (-3) dec_fmt) = true
-  /\ print_expr (fun _ => "0"%string) true e = "--3"%string
-  /\ lex (print_expr (fun _ => "0"%string) true e) = Ok [TFix "--"; TInt "3"]
-  /\ expr_toks (fun _ => "0"%string) true e = [TFix "-"; TFix "-"; TInt "3"]
+  pr_expr fd (FLitI (-3) dec_fmt) = true
+  /\ print_expr fd true e = "--3"%string
+  /\ lex (print_expr fd true e) = Ok [TFix "--"; TInt "3"]
+  /\ expr_toks fd true e = [TFix "-"; TFix "-"; TInt "3"]
   /\ safe (TFix "-") (Some "-"%char) = false
-  /\ pr_expr (fun _ => "0"%string) e = false.
+  /\ pr_expr fd e = false.
 Proof. vm_compute. repeat split. Qed.
+
+(* tie 1: the token list, regexes, operator spellings, precedence tiers, keyword tables and escape
+   tables read out of the current sources are the ones the models use *)
+Theorem C08_tables_match : tables_ok = true.
+Proof. exact tables_match. Qed.
 
 (* (4) the line width is irrelevant: whatever the Formatter state machine does at a given width
        (inline attempt, outermost-only backtracking, block layout), the tokens it writes are the
@@ -80,10 +96,11 @@ Definition C08_full : Prop :=
   (forall a, 0 <= a < INF_BITS -> float_shape (float_text fd a) = true) ->
   (forall a, 0 <= a < INF_BITS -> pf (float_text fd a) = a) ->
   forall sup e, pr_expr fd e = true ->
-    lex (print_expr fd sup e) = Ok (expr_toks fd sup e)
-    /\ parse_tokens pf (expr_toks fd sup e) = Ok (unfold e)
+    lex (print_expr fd sup e) = Ok (expr_toks fd sup e)                    (* proved: C08_expr_no_token_gluing *)
+    /\ parse_tokens pf (expr_toks fd sup e) = Ok (unfold e)                (* checked per case by the correspondence *)
     /\ (no_odd_nan e = true -> fold (unfold e) = fold e).
 
+Print Assumptions C08_expr_no_token_gluing.
 Print Assumptions C08_int_literal_roundtrip.
 Print Assumptions C08_no_token_gluing.
 Print Assumptions C08_render_tokens.
